@@ -255,7 +255,7 @@ fn layout_full(ctx: &Ctx, prop: &str, nc: u64, small: u64) -> Layout {
         "C16" => Layout {
             cell_bases: 0,
             special: 0,
-            random_blocks: ctx.n(250, 6000),
+            random_blocks: ctx.n(250, 2500),
         },
         _ => Layout {
             cell_bases: 0,
